@@ -292,6 +292,92 @@ Proof.
 Qed.
 
 (* ------------------------------------------------------------------ *)
+(* declarative reading of the external-module rule                      *)
+
+Definition port_ok (ps : clockid -> clockid) (x : scd) (c : option clockid) : bool :=
+  match x with
+  | SUnknown => false
+  | SConst => true
+  | SClock k => match c with Some d => Nat.eqb (ps k) (ps d) | None => false end
+  end.
+
+Lemma ext_port_spec : forall ps ret x c, ext_port ps ret x c = ret && port_ok ps x c.
+Proof. intros. destruct x; simpl; [rewrite andb_false_r | rewrite andb_true_r |]; reflexivity. Qed.
+
+Lemma ext_loop_spec : forall ps ins inclk ret,
+  ext_loop ps ins inclk ret = ret && forallb (fun xc => port_ok ps (fst xc) (snd xc)) (combine ins inclk).
+Proof.
+  induction ins as [|x r IH]; intros inclk ret; simpl; [rewrite andb_true_r; reflexivity|].
+  destruct inclk as [|c rc]; simpl; [rewrite andb_true_r; reflexivity|].
+  rewrite IH, ext_port_spec, andb_assoc. reflexivity.
+Qed.
+
+Lemma nth_combine : forall (A B : Type) (l1 : list A) (l2 : list B) i x c,
+  nth_error l1 i = Some x -> nth_error l2 i = Some c -> In (x, c) (combine l1 l2).
+Proof.
+  induction l1 as [|a l1 IH]; intros l2 i x c H1 H2; [destruct i; discriminate|].
+  destruct l2 as [|b l2]; [destruct i; discriminate|].
+  destruct i; simpl in *.
+  - inversion H1; inversion H2; subst. left; reflexivity.
+  - right. eapply IH; eauto.
+Qed.
+
+Lemma in_combine_nth : forall (A B : Type) (l1 : list A) (l2 : list B) x c,
+  In (x, c) (combine l1 l2) -> exists i, nth_error l1 i = Some x /\ nth_error l2 i = Some c.
+Proof.
+  induction l1 as [|a l1 IH]; intros l2 x c H; [contradiction|].
+  destruct l2 as [|b l2]; [contradiction|]. simpl in H. destruct H as [H|H].
+  - inversion H; subst. exists 0. auto.
+  - destruct (IH _ _ _ H) as (i & H1 & H2). exists (S i). auto.
+Qed.
+
+(* a passing check: every port's signal is constant or of the pin source of the port's clock *)
+Lemma ext_check_true : forall ps nd ins i x,
+  ext_check ps nd ins = true -> nth_error ins i = Some x ->
+  exists c, nth_error (ninclk nd) i = Some c /\ port_ok ps x c = true.
+Proof.
+  intros ps nd ins i x H Hi. unfold ext_check in H.
+  destruct (Nat.eqb (length ins) (length (ninclk nd))) eqn:El; [|discriminate].
+  apply Nat.eqb_eq in El. rewrite ext_loop_spec in H. simpl in H.
+  assert (Hlt : i < length (ninclk nd)) by (rewrite <- El; apply nth_error_Some; congruence).
+  destruct (nth_error (ninclk nd) i) as [c|] eqn:Ec; [|apply nth_error_None in Ec; lia].
+  exists c. split; auto. rewrite forallb_forall in H.
+  exact (H (x, c) (nth_combine _ _ _ _ _ _ _ Hi Ec)).
+Qed.
+
+Lemma ext_check_false : forall ps nd ins,
+  ext_check ps nd ins = false -> length ins = length (ninclk nd) ->
+  exists i x c, nth_error ins i = Some x /\ nth_error (ninclk nd) i = Some c /\ port_ok ps x c = false.
+Proof.
+  intros ps nd ins H El. unfold ext_check in H. rewrite El, Nat.eqb_refl in H.
+  rewrite ext_loop_spec in H. simpl in H.
+  assert (exists xc, In xc (combine ins (ninclk nd)) /\ port_ok ps (fst xc) (snd xc) = false) as ([x c] & Hin & Hf).
+  { revert H. generalize (combine ins (ninclk nd)). intro l. induction l as [|y l IH]; simpl; [discriminate|].
+    intro H. apply andb_false_iff in H. destruct H as [H|H].
+    - exists y. auto.
+    - destruct (IH H) as (xc & Hin & Hf). exists xc. auto. }
+  destruct (in_combine_nth _ _ _ _ _ _ Hin) as (i & H1 & H2). exists i, x, c. auto.
+Qed.
+
+Definition ext_ok (ps : clockid -> clockid) (nd : node) (ins : list scd) : Prop :=
+  length ins = length (ninclk nd)
+  /\ forall i x c, nth_error ins i = Some x -> nth_error (ninclk nd) i = Some c -> port_ok ps x c = true.
+
+(* EVERY port counts: the rule passes exactly when each port's signal is constant or of the pin
+   source of the clock declared for that port (an unknown domain is refused on any port) *)
+Theorem ext_check_spec : forall ps nd ins, ext_check ps nd ins = true <-> ext_ok ps nd ins.
+Proof.
+  intros ps nd ins. split.
+  - intros H. split.
+    + unfold ext_check in H. destruct (Nat.eqb (length ins) (length (ninclk nd))) eqn:El; [|discriminate].
+      apply Nat.eqb_eq. exact El.
+    + intros i x c Hi Hc. destruct (ext_check_true _ _ _ _ _ H Hi) as (c' & Ec & Hp). congruence.
+  - intros [El Hall]. destruct (ext_check ps nd ins) eqn:E; auto.
+    destruct (ext_check_false _ _ _ E El) as (i & x & c & Hi & Hc & Hp).
+    rewrite (Hall i x c Hi Hc) in Hp. discriminate.
+Qed.
+
+(* ------------------------------------------------------------------ *)
 (* clocks that share the pin source are one domain                      *)
 
 Definition oclk_equiv (ps : clockid -> clockid) (a b : option clockid) : Prop :=
@@ -309,13 +395,31 @@ Proof.
   rewrite Hxy. destruct clk; auto. destruct (Nat.eqb c1 (ps c0)); auto.
 Qed.
 
+Lemma forall2_length : forall (A B : Type) (R : A -> B -> Prop) l l', Forall2 R l l' -> length l = length l'.
+Proof. induction 1; simpl; auto. Qed.
+
+Lemma ext_loop_equiv : forall ps l l',
+  Forall2 (scd_equiv ps) l l' -> forall ic ic', Forall2 (oclk_equiv ps) ic ic' ->
+  forall ret, ext_loop ps l ic ret = ext_loop ps l' ic' ret.
+Proof.
+  induction 1 as [|x y l l' Hxy _ IH]; intros ic ic' Hc ret; simpl; auto.
+  inversion Hc as [|a b la lb Hab Hrest]; subst; auto.
+  replace (ext_port ps ret y b) with (ext_port ps ret x a); [apply IH; exact Hrest|].
+  destruct x, y; simpl in Hxy; try contradiction; auto. simpl.
+  destruct a, b; simpl in Hab; try contradiction; auto. rewrite Hxy, Hab. reflexivity.
+Qed.
+
 Theorem check_valid_equiv : forall ps nd nd' ins ins',
   nkind nd = nkind nd' ->
   Forall2 (oclk_equiv ps) (nclocks nd) (nclocks nd') ->
+  Forall2 (oclk_equiv ps) (ninclk nd) (ninclk nd') ->
   Forall2 (scd_equiv ps) ins ins' ->
   check_valid ps nd ins = check_valid ps nd' ins'.
 Proof.
-  intros ps nd nd' ins ins' Hk Hc Hi.
+  intros ps nd nd' ins ins' Hk Hc Hic Hi.
+  assert (Hext : ext_check ps nd ins = ext_check ps nd' ins').
+  { unfold ext_check. rewrite (forall2_length _ _ _ _ _ Hi), (forall2_length _ _ _ _ _ Hic).
+    rewrite (ext_loop_equiv _ _ _ Hi _ _ Hic). reflexivity. }
   unfold check_valid. rewrite <- Hk.
   assert (Hbase : base_check ps nd ins = base_check ps nd' ins').
   { unfold base_check, own_clock.
